@@ -1222,6 +1222,25 @@ macro_rules! set_battery {
                 Ok(d) => { let back: Vec<Vec<u8>> = (0..d.len()).map(|i| d.get(i).to_bytes()).collect(); if back != want { $failures.push(format!("{} {:?}: encoding does not decode to the same elements", stringify!($ty), seq)); } }
                 Err(_) => $failures.push(format!("{} {:?}: own encoding does not decode", stringify!($ty), seq)),
             }
+            // JSON that repeats elements: the collection read from it is duplicate-free, first-occurrence order
+            let elem_json = |e: usize| -> Option<String> {
+                // the element's JSON, cut out of the JSON of the one-element collection (some element types have no to_json of their own)
+                let mut c1 = $ty::new(); c1.add(&elems[e]);
+                let j = c1.to_json().ok()?; let j = j.trim();
+                if j.starts_with('[') && j.ends_with(']') { Some(j[1..j.len() - 1].to_string()) } else { None }
+            };
+            if let Some(parts) = seq.iter().map(|&e| elem_json(e)).collect::<Option<Vec<String>>>() {
+                let js = format!("[{}]", parts.join(","));
+                match $ty::from_json(&js) {
+                    Ok(d) => {
+                        let back: Vec<Vec<u8>> = (0..d.len()).map(|i| d.get(i).to_bytes()).collect();
+                        if back != want { $failures.push(format!("{} read from JSON repeating elements {:?}: holds {} elements, expected first occurrences {:?}", stringify!($ty), seq, back.len(), expect)); }
+                        let n_items = match $ty::from_bytes(d.to_bytes()) { Ok(x) => x.len(), Err(_) => usize::MAX };
+                        if n_items != want.len() { $failures.push(format!("{} {:?}: a collection read from JSON serializes {} elements", stringify!($ty), seq, n_items)); }
+                    }
+                    Err(_) => $failures.push(format!("{} {:?}: a JSON array of its own elements is refused", stringify!($ty), seq)),
+                }
+            }
             // bytes that repeat elements (untagged array, tagged, indefinite): decoded collection is duplicate-free, first-occurrence order
             for form in 0..3u8 {
                 let mut raw: Vec<u8> = Vec::new();
